@@ -213,10 +213,10 @@ def run_offset_case(case):
     evals = [e for e in log if e[0] == 'eval']
     want_entry = tuple(float(init[name][pos + offset]) for name in ('A', 'B', 'C')) + (float(init['X'][pos]),)
     exp = {'result': 'True', 'status': '.', 'iters': 1, 'entry': want_entry, 'passes': 1,
-           'hooks': [('pre', pos, 0), ('post', pos, 1)]}
+           'hooks': [('pre', pos), ('post', pos)]}
     obs = {'result': res, 'status': str(m.status[pos]), 'iters': int(m.iterations[pos]),
            'entry': evals[0][3] if evals else None, 'passes': len(evals),
-           'hooks': [e[:3] for e in log if e[0] != 'eval']}
+           'hooks': [e[:2] for e in log if e[0] != 'eval']}
     if exp != obs:
         out.append(('offset:seed', exp, obs, 'offset must copy the endogenous values of t+offset into t before the first pass'))
     other = sorted((nm, i) for nm, i in scripted.changed_cells(before, m) if i != pos or nm == 'X')
